@@ -62,7 +62,10 @@ Record variant := mkVariant {
   v_prefix_ok : bool;      (* Undelegate looks for the share-denom prefix "v<id>/" (not "v<id>_") before dropping the delegator *)
   v_redeem_rule : Z;       (* shares burnt by Undelegate: 0: GetPoolCoins = round(x*(1-slashed));
                               1: pro rata to the books, ceil(x*shares/stake) *)
-  v_burn_registry : bool   (* Undelegate burns through the tokens keeper (TokenInfo.Supply follows) *)
+  v_burn_registry : bool;  (* Undelegate burns through the tokens keeper (TokenInfo.Supply follows) *)
+  v_slash_byref : bool;    (* app.go hands the slashing keeper the application's multistaking keeper by reference (the
+                              governance slash path works); by value: a copy without distributor keeper => it panics *)
+  v_slash_guard : bool     (* SlashStakingPool skips the burn when no default-denom stake is slashed *)
 }.
 Definition end_deletes (rule h snap now : Z) : bool :=
   if rule =? 0 then now <? h + snap else if rule =? 1 then h + snap <=? now else false.
@@ -218,11 +221,11 @@ Fixpoint claim_matured_loop (who : Z) (l : list undel) (s : st) : outcome st :=
 Definition claim_matured (who : Z) (s : st) : outcome st := claim_matured_loop who (undels s) s.
 
 (* SlashStakingPool (the burn of a zero default-denom coin is rejected by the bank => panic) *)
-Definition slash (c : cfg) (sl : Z) (s : st) : outcome st :=
+Definition slash (v : variant) (c : cfg) (sl : Z) (s : st) : outcome st :=
   let newstake : cmap := fun d => if zmem d (c_dens c) then pool_coin (stake s d) sl else stake s d in
   let lost : cmap := fun d => stake s d - newstake d in
   if existsb (fun d => (newstake d <? 0) || (lost d <? 0)) (c_dens c) then Panic "negative coin amount" else
-  if lost 0 <=? 0 then Panic "burn of an invalid (zero) coin" else
+  if (lost 0 <=? 0) && negb (v_slash_guard v) then Panic "burn of an invalid (zero) coin" else
   if modb s 0 <? lost 0 then Panic "insufficient funds to burn" else
   let tsend : cmap := fun d => if d =? 0 then 0 else lost d in
   if existsb (fun d => modb s d <? tsend d) (c_dens c) then Panic "insufficient funds" else
@@ -413,8 +416,10 @@ Definition step (v : variant) (c : cfg) (o : op) (s : st) : outcome st :=
   | OUndelegate who amts => undelegate v c who amts s
   | OClaim who id => claim v who id s
   | OClaimMatured who => claim_matured who s
-  | OSlash sl => slash c sl s
-  | OSlashProposal sl => match slash c sl s with Ok _ => Panic "nil distributor keeper" | r => r end
+  | OSlash sl => slash v c sl s
+  | OSlashProposal sl =>
+      if v_slash_byref v then slash v c sl s
+      else match slash v c sl s with Ok _ => Panic "nil distributor keeper" | r => r end
   | OSendShares a b amts => send_shares a b amts s
   | OClaimRewards who => claim_rewards c who s
   | ORegister who => register c who s
